@@ -484,7 +484,7 @@ pub fn run(ctx: &Ctx) {
     drive_enum(ctx, &SUBS[0], sweep::cases().len() as u64);
     drive_enum(ctx, &SUBS[1], ctx.n(60, 30_000));
     drive_random(ctx, &SUBS[2], ctx.n(40_000, 20_000_000), 1200);
-    drive_random(ctx, &SUBS[3], ctx.n(10_000, 5_000_000), 1200);
+    drive_random(ctx, &SUBS[3], ctx.n(10_000, 5_000_000), 4000);
     if !ctx.quick() && !ctx.failed() {
         crate::fuzzing::drive_fuzz(ctx, "bytes", 500_000);
     }
